@@ -73,9 +73,9 @@ impl Bind {
     pub fn is_map(&self) -> bool {
         MAP_KINDS.contains(&self.kind)
     }
-    /// Does texlang accept `\global` in front of this assignment?  (\chardef does not: scope filter.)
+    /// Does TeX accept `\global` in front of this assignment?  (Every kind here: TeX.2021.1210-1224.)
     pub fn global_ok(&self) -> bool {
-        !matches!(self.kind, K::CharDef | K::MathCharDef)
+        true
     }
     /// Depth-0 setup run before the program proper.
     pub fn setup(&self) -> String {
